@@ -69,3 +69,22 @@ prop("C04",
                 "(which key signed), key-index equality standing for key equality.",
      technique="runtime differential monitor against a reference verifier over forged certificate forests; exhaustive single-bit mutation of verified chains",
      assumptions=["independent 32-byte key seeds do not collide", "expiry bound exclusive, issue bound inclusive, as the property's rationale states"])
+
+prop("C13",
+     level="exploration",
+     exhaustive=True,
+     parts=[{"engine": "cyclist"}, {"engine": "cyclist", "tags": ["appengine"]}],
+     floor={"quick": 5000, "thorough": 100000},
+     rule="Programs over the public Cyclist API (Initialize/InitializeEmpty, Absorb, Encrypt, Decrypt, Squeeze, SqueezeKey, "
+          "Ratchet) run on the real object and on the harness reference, every output compared. Exhaustive: all programs of "
+          "length <=3 over the op alphabet with operand lengths {0,1,136,137} from 4 initial states; random programs of <=40 "
+          "ops with lengths across the 136-byte rate boundaries; pair runs (A encrypts, B decrypts, both continue). Both the "
+          "assembly and the generic (-tags appengine) permutation builds. Non-trivial = a program whose outputs were all "
+          "compared; distinct by enumeration or by (batch, index).",
+     level_text="Differential monitoring of cyclist.Cyclist against an independent specification-level reference "
+                "(Keccak-p[1600,12] anchored to crypto/sha3 with 24 rounds and to the repository's XKCP transcript on every run), "
+                "on both permutation builds, with canaries around the object and output buffers.",
+     level_note="Agreement is with a second implementation written from the Cyclist specification, not with the specification "
+                "itself; documented preconditions (keyed-only ops in keyed mode, |key|+|id|+1 <= 136) are respected by the generator.",
+     technique="runtime differential monitor against an independent reference implementation (bounded-exhaustive + random programs), canaries",
+     assumptions=["crypto/sha3 and the XKCP transcript anchor the reference permutation and duplex"])
